@@ -239,7 +239,7 @@ def rule_r2(chk, facts):
         # both calls sit under the same condition on unmodified operands: the
         # complementary edge of that condition is infeasible after the first call
         conds = [nocast(l[1]) for s_, d_, l in f.edges() if l is not None and l[0] == 'T' and d_ == first[0]]
-        written = {strip(m[2]) for b2, i2, l2, m in f.nodes() if is_assign(m) or is_incdec(m)}
+        written = written_after(f, first[0], first[1])
 
         def eok(s_, d_, l):
             if l is not None and l[0] == 'F' and nocast(l[1]) in conds and \
